@@ -34,7 +34,13 @@ impl Analysis<A> for ConstFold {
         match n {
             A::Num(x) => Some(*x),
             A::Add(x, y) => Some((*eg.analysis_data(x.id))?.wrapping_add((*eg.analysis_data(y.id))?)),
-            A::Mul(x, y) => Some((*eg.analysis_data(x.id))?.wrapping_mul((*eg.analysis_data(y.id))?)),
+            // zero is absorbing: a product with a constant-zero factor is the constant 0 even if the other factor has SLOTS - the
+            // modify hook then unions a class that has parameters into the class of 0, often the class `add` has just allocated
+            A::Mul(x, y) => match (*eg.analysis_data(x.id), *eg.analysis_data(y.id)) {
+                (Some(a), Some(b)) => Some(a.wrapping_mul(b)),
+                (Some(0), _) | (_, Some(0)) => Some(0),
+                _ => None,
+            },
             _ => None,
         }
     }
@@ -309,6 +315,11 @@ const FIXED: &[(&str, &[&str], &str, bool, usize)] = &[
     ("(let $1 (add (var $1) 0) 2)", &["add-0", "let-const"], "manual", true, 2),
     ("(sum $1 (add (var $1) 0))", &["add-0", "sum-const"], "manual", false, 1),
     ("(add (var $2) (let $1 (mul (add (var $1) 0) (var $2)) (var $2)))", &["add-0", "mul-1", "let-const"], "runner", false, 2),
+    // b[x := t] where b invokes ONE class of two slots twice, with the same arguments in the other order (u(v+1) next to v(u+1), a
+    // class without that symmetry): the substituted copies are different terms (seeded C03m: a memo keyed by class and slot SET)
+    ("(let $1 (add (mul (var $1) (add (var $2) 1)) (mul (var $2) (add (var $1) 1))) 2)", &["let-subst"], "manual", false, 1),
+    ("(let $1 (add (mul (var $1) (add (var $2) 1)) (mul (var $2) (add (var $1) 1))) 2)", &["let-subst"], "manual", true, 1),
+    ("(let $1 (sum $3 (add (mul (var $1) (add (var $3) 1)) (mul (var $3) (add (var $1) 1)))) (var $2))", &["let-subst", "let-sum"], "runner", false, 2),
     // one pass whose effects CANCEL in the sums of the progress measure and allocate no class: comm-add gives the class of x+y a
     // symmetry (+1; its parent binds one of the two slots, so nothing is inherited), mul-1 unions two slot-free classes that have no constant (-1 live class, -1 symmetry): the pass has changed
     // the e-graph, apply_rewrites must say so and no run may stop as saturated after it (seeded C15k)
